@@ -81,7 +81,7 @@ def run(eng, p):
     eng.notes["outcome"] = {"method": method, "comps": comps, "agents": p["agents"], "must_host": must}
     caps = {a.name: a.capacity for a in agents}
     pinned = [(c, a.name) for c in comps for a in agents if c in hosting[a.name] and not is_pos(hosting[a.name][c])]
-    regs = []
+    regs = []           # kept for the evidence; each listed finding is attached to the one assertion it is about
     # listed findings: these methods document that hints are not used / adhoc places must_host computations without a capacity check
     regs += region(eng, "C23-hints-not-used", method in ("oneagent", "gh_cgdp", "heur_comhost") and bool(must))
     regs += region(eng, "C23-adhoc-must-host-capacity", method == "adhoc" and bool(must))
@@ -93,20 +93,23 @@ def run(eng, p):
         return
     except Exception as e:
         eng.fail("%s.distribute crashed with %s: %s (neither a mapping nor ImpossibleDistributionException)"
-                 % (method, type(e).__name__, e), regions=regs, detail=traceback.format_exc(limit=-4))
+                 % (method, type(e).__name__, e), detail=traceback.format_exc(limit=-4))
         return
     mapping = {a: list(dist.computations_hosted(a)) for a in dist.agents}
     eng.notes["outcome"]["mapping"] = mapping
     hosted = [c for cs in mapping.values() for c in cs]
     ok = sorted(hosted) == sorted(comps) and all(a in caps for a in mapping)
     eng.prove(ok, "%s returned a mapping that does not host every computation exactly once on a declared agent" % method,
-              regions=regs, detail=str(mapping))
+              detail=str(mapping))
     if must:
         eng.prove(all(c in mapping.get(a, []) for a, cs in must.items() for c in cs),
-                  "%s ignored a must_host hint" % method, regions=regs, detail=str((must, mapping)))
+                  "%s ignored a must_host hint" % method,
+                  regions=region(eng, "C23-hints-not-used", method in ("oneagent", "gh_cgdp", "heur_comhost")),
+                  detail=str((must, mapping)))
     if ok and method in CAPACITY_AWARE:
         conds = [F.le(F.sum([foot[c] for c in cs]), caps[a]) for a, cs in mapping.items() if cs]
-        eng.prove(F.and_(conds) if conds else True, "%s exceeded an agent's capacity" % method, regions=regs, detail=str(mapping))
+        eng.prove(F.and_(conds) if conds else True, "%s exceeded an agent's capacity" % method,
+                  regions=region(eng, "C23-adhoc-must-host-capacity", method == "adhoc" and bool(must)), detail=str(mapping))
 
 
 def is_pos(x):
